@@ -10,15 +10,26 @@ open TlxVerif.C09 (SWO)
 
 variable {α : Type}
 
-/-- unguarded iterators need a readable element behind every sequence, greater than all real ones -/
+/-- every sequence is followed by an element greater than all real ones -/
+def SentinelsP (lt : α → α → Bool) (seqs : List (Seq α)) : Prop :=
+  ∀ s ∈ seqs, ∃ gd, s.guard = some gd ∧ ∀ s' ∈ seqs, ∀ y ∈ s'.xs, lt y gd = true
+
+/-- what unguarded iterators need at a point where they are compared: every sequence still has a
+real element, or is followed by a sentinel greater than all real elements -/
 def ViewsOK (g : Bool) (lt : α → α → Bool) (seqs : List (Seq α)) : Prop :=
-  g = false → ∀ s ∈ seqs, ∃ gd, s.guard = some gd ∧ ∀ s' ∈ seqs, ∀ y ∈ s'.xs, lt y gd = true
+  g = false → ∀ s ∈ seqs, s.xs ≠ [] ∨ ∃ gd, s.guard = some gd ∧ ∀ s' ∈ seqs, ∀ y ∈ s'.xs, lt y gd = true
+
+theorem SentinelsP.viewsOK {lt : α → α → Bool} {seqs : List (Seq α)} (h : SentinelsP lt seqs) (g : Bool) :
+    ViewsOK g lt seqs := fun _ s hs => Or.inr (h s hs)
 
 theorem ViewsOK.headU {g : Bool} {lt : α → α → Bool} {seqs : List (Seq α)} (h : ViewsOK g lt seqs)
     (hg : g = false) {s : Seq α} (hs : s ∈ seqs) : (headU s).isSome = true := by
-  obtain ⟨gd, hgd, _⟩ := h hg s hs
   unfold C05.headU
-  cases s.xs <;> simp [hgd]
+  rcases h hg s hs with h1 | ⟨gd, hgd, _⟩
+  · cases hx : s.xs with
+    | nil => exact absurd hx h1
+    | cons a l => simp
+  · cases s.xs <;> simp [hgd]
 
 theorem viewAt_eq (g : Bool) {seqs : List (Seq α)} {i : Nat} {s : Seq α} (h : seqs[i]? = some s) :
     viewAt g seqs i = view g s := by simp [viewAt, h]
@@ -159,10 +170,10 @@ theorem find_row {M : Machine} {st : List Nat} (h : ∃ row ∈ M.rows, row.perm
 
 /-! ### the run -/
 
-theorem ViewsOK.set {g : Bool} {lt : α → α → Bool} {seqs : List (Seq α)} (h : ViewsOK g lt seqs)
+theorem SentinelsP.set {lt : α → α → Bool} {seqs : List (Seq α)} (h : SentinelsP lt seqs)
     {a : Nat} {s : Seq α} (hs : seqs[a]? = some s) {x : α} {rest : List α} (hx : s.xs = x :: rest) :
-    ViewsOK g lt (seqs.set a { s with xs := rest }) := by
-  intro hg s1 hs1
+    SentinelsP lt (seqs.set a { s with xs := rest }) := by
+  intro s1 hs1
   have sub : ∀ s' ∈ seqs.set a { s with xs := rest }, ∃ s0 ∈ seqs, s'.guard = s0.guard ∧ ∀ y ∈ s'.xs, y ∈ s0.xs := by
     intro s' hs'
     rcases List.mem_or_eq_of_mem_set hs' with h1 | h1
@@ -171,7 +182,7 @@ theorem ViewsOK.set {g : Bool} {lt : α → α → Bool} {seqs : List (Seq α)} 
       rw [h1] at hy
       rw [hx]; exact List.mem_cons_of_mem _ hy
   obtain ⟨s0, hs0, hg0, _⟩ := sub s1 hs1
-  obtain ⟨gd, hgd, hall⟩ := h hg s0 hs0
+  obtain ⟨gd, hgd, hall⟩ := h s0 hs0
   refine ⟨gd, by rw [hg0, hgd], fun s' hs' y hy => ?_⟩
   obtain ⟨s2, hs2, _, hsub⟩ := sub s' hs'
   exact hall s2 hs2 y (hsub y hy)
@@ -259,7 +270,8 @@ theorem head_isStableMin {lt : α → α → Bool} (hlt : SWO lt) {g : Bool} {se
       rw [this] at hb; simp [beforeV] at hb
     | false =>
       subst hg
-      obtain ⟨gd, hgd, hall⟩ := hv rfl seqs[a] (List.getElem_mem (by omega))
+      rcases hv rfl seqs[a] (List.getElem_mem (by omega)) with hc | ⟨gd, hgd, hall⟩
+      · exact hc he
       have : viewAt false seqs a = some gd := by rw [viewAt_eq false hsa]; simp [view, C05.headU, he, hgd]
       rw [this] at hb
       have hy : lt y0 gd = true := hall s0 (List.mem_of_getElem? hs0) y0 (by rw [hx0]; exact List.mem_cons_self)
@@ -296,14 +308,19 @@ theorem head_isStableMin {lt : α → α → Bool} (hlt : SWO lt) {g : Bool} {se
       have : ¬ a < j := by omega
       simpa [beforeV, this] using hb
 
-theorem machineLoop_run {lt : α → α → Bool} (hlt : SWO lt) (g : Bool) {M : Machine} (hM : tableOK M = true) :
+theorem machineLoop_run {lt : α → α → Bool} (hlt : SWO lt) (g : Bool) {M : Machine} (hM : tableOK M = true)
+    (Pinv : List (Seq α) → Nat → Prop)
+    (hPv : ∀ seqs n, Pinv seqs (n + 1) → ViewsOK g lt seqs)
+    (hPs : ∀ (seqs : List (Seq α)) (n a : Nat) (s : Seq α) (x : α) (q : List α), Pinv seqs (n + 1) → seqs[a]? = some s →
+      s.xs = x :: q → IsStableMin lt (xsOf seqs) a x q → Pinv (seqs.set a { s with xs := q }) n) :
     ∀ (size : Nat) (st : List Nat) (seqs : List (Seq α)),
-      seqs.length = M.n → ViewsOK g lt seqs → goodState M (oracleC g lt seqs M.n) st = true →
+      seqs.length = M.n → Pinv seqs size → goodState M (oracleC g lt seqs M.n) st = true →
       size ≤ (xsOf seqs).flatten.length →
       ∃ fin out, machineLoop g lt M size st seqs = some (fin, out) ∧
         StableRun lt (xsOf seqs) size out (xsOf fin) ∧ guardsOf fin = guardsOf seqs
   | 0, st, seqs, _, _, _, _ => ⟨seqs, [], rfl, StableRun.done _, rfl⟩
-  | size + 1, st, seqs, hn, hv, hgood, hsize => by
+  | size + 1, st, seqs, hn, hP, hgood, hsize => by
+    have hv := hPv seqs size hP
     obtain ⟨_, _, _, _, hrows, horacle⟩ := tableOK_parts hM
     obtain ⟨hperm, hsorted, hrow⟩ := goodState_parts hgood
     obtain ⟨row, hfind, hrowmem, hrowperm⟩ := find_row hrow
@@ -312,7 +329,7 @@ theorem machineLoop_run {lt : α → α → Bool} (hlt : SWO lt) (g : Bool) {M :
     | nil => have := pf.len; have := (tableOK_parts hM).2.2.1; simp at *; omega
     | cons a rest =>
       obtain ⟨s, x, q, hsa, hxa, hmin⟩ := head_isStableMin hlt hn hv pf hsorted (by omega)
-      have hv' := hv.set hsa hxa
+      have hP' := hPs seqs size a s x q hP hsa hxa hmin
       have hn' : (seqs.set a { s with xs := q }).length = M.n := by rw [List.length_set]; exact hn
       have hlen := length_flatten_set hmin.1.1
       have hxs' := xsOf_set seqs a s q
@@ -323,6 +340,10 @@ theorem machineLoop_run {lt : α → α → Bool} (hlt : SWO lt) (g : Bool) {M :
         · rw [hxs']
           exact StableRun.emit hmin (StableRun.done _)
       · -- dispatch
+        have hv' : ViewsOK g lt (seqs.set a { s with xs := q }) := by
+          obtain ⟨m, hm⟩ : ∃ m, size = m + 1 := ⟨size - 1, by omega⟩
+          rw [hm] at hP'
+          exact hPv _ m hP'
         have hargs : (a :: rest).all (· < (seqs.set a { s with xs := q }).length) = true := by
           rw [hn']; exact List.all_eq_true.2 (fun i hi => by simpa using pf.lt i hi)
         have hbody := evalBody_eq hlt g (seqs.set a { s with xs := q }) hv' (a :: rest) row.ops hargs
@@ -349,8 +370,8 @@ theorem machineLoop_run {lt : α → α → Bool} (hlt : SWO lt) (g : Bool) {M :
           (oracleC_trans hlt g _ M.n)
         obtain ⟨st', hev, hgood'⟩ := hr row hrowmem (by rw [hrowperm]; exact htail)
         rw [hrowperm] at hev
-        obtain ⟨fin, out, hrec, hrun, hgd⟩ := machineLoop_run hlt g hM size st' (seqs.set a { s with xs := q })
-          hn' hv' hgood' (by rw [hxs']; omega)
+        obtain ⟨fin, out, hrec, hrun, hgd⟩ := machineLoop_run hlt g hM Pinv hPv hPs size st' (seqs.set a { s with xs := q })
+          hn' hP' hgood' (by rw [hxs']; omega)
         refine ⟨fin, x :: out, ?_, ?_, by rw [hgd, guardsOf_set hsa q]⟩
         · have hb2 : evalBody g lt (seqs.set a { s with xs := q }) (a :: rest) row.ops M.body.tests M.body.dflt = some st' := by
             rw [hbody]; exact hev
@@ -360,10 +381,16 @@ theorem machineLoop_run {lt : α → α → Bool} (hlt : SWO lt) (g : Bool) {M :
 
 /-- **multiway_merge_3_variant / multiway_merge_4_variant.**  If the generated tables pass
 `tableOK`, the machine is defined for every `size ≤ total` and performs the stable run of that
-length: with guarded iterators for arbitrary inputs; with unguarded iterators when every sequence
-is followed by an element greater than all real ones. -/
+length, provided an invariant `Pinv seqs remaining` is maintained by stable-minimum emissions
+that makes the iterators comparable whenever elements remain to be merged (`ViewsOK`): nothing
+for guarded iterators, sentinels behind every sequence (`SentinelsP`), or "no sequence is
+exhausted while elements remain to be merged" (the unguarded phase of the combined variants). -/
 theorem machineMerge_run {lt : α → α → Bool} (hlt : SWO lt) (g : Bool) {M : Machine} (hM : tableOK M = true)
-    (seqs : List (Seq α)) (size : Nat) (hn : seqs.length = M.n) (hv : ViewsOK g lt seqs)
+    (Pinv : List (Seq α) → Nat → Prop)
+    (hPv : ∀ seqs n, Pinv seqs (n + 1) → ViewsOK g lt seqs)
+    (hPs : ∀ (seqs : List (Seq α)) (n a : Nat) (s : Seq α) (x : α) (q : List α), Pinv seqs (n + 1) → seqs[a]? = some s →
+      s.xs = x :: q → IsStableMin lt (xsOf seqs) a x q → Pinv (seqs.set a { s with xs := q }) n)
+    (seqs : List (Seq α)) (size : Nat) (hn : seqs.length = M.n) (hP : Pinv seqs size)
     (hsize : size ≤ (xsOf seqs).flatten.length) :
     ∃ fin out, machineMerge g lt M seqs size = some (fin, out) ∧
       StableRun lt (xsOf seqs) size out (xsOf fin) ∧ guardsOf fin = guardsOf seqs := by
@@ -375,11 +402,14 @@ theorem machineMerge_run {lt : α → α → Bool} (hlt : SWO lt) (g : Bool) {M 
   · subst h0
     exact ⟨seqs, [], by simp, StableRun.done _, rfl⟩
   · simp only [h0, if_false]
+    have hv : ViewsOK g lt seqs := by
+      obtain ⟨m, rfl⟩ : ∃ m, size = m + 1 := ⟨size - 1, by omega⟩
+      exact hPv seqs m hP
     have htr := evalTree_eq hlt g M seqs hn hv M.entry htree
     rw [hn] at htr
     obtain ⟨⟨st, hev, hgood⟩, _⟩ := horacle _ (oracleC_mem g lt seqs M.n) (oracleC_trans hlt g _ M.n)
     have : evalTree g lt M seqs M.entry = some st := by rw [htr]; exact hev
-    obtain ⟨fin, out, hrec, hrun, hgd⟩ := machineLoop_run hlt g hM size st seqs hn hv hgood hsize
+    obtain ⟨fin, out, hrec, hrun, hgd⟩ := machineLoop_run hlt g hM Pinv hPv hPs size st seqs hn hP hgood hsize
     exact ⟨fin, out, by simp [this, hrec], hrun, hgd⟩
 
 end TlxVerif.C05
